@@ -857,6 +857,13 @@ theorem step_invL {s s' : State} {dead : List Inst} {x : Inst} {a : Act} (inv : 
     | [], hsc, _ => simp at hsc
     | _ :: _ :: _, hsc, _ => simp at hsc
   | release i => simp [inScopeL] at hsc
+  | redeployFailed i =>
+    simp only [step] at hstep
+    split at hstep
+    · simp at hstep
+    · split at hstep
+      · injection hstep with hstep; subst hstep; exact ⟨dead, x, inv⟩
+      · simp at hstep
   | flush i t => obtain ⟨x', h⟩ := step_invL_simple inv trivial hstep; exact ⟨dead, x', h⟩
   | compact i rm add => obtain ⟨x', h⟩ := step_invL_simple inv trivial hstep; exact ⟨dead, x', h⟩
   | snap i => obtain ⟨x', h⟩ := step_invL_simple inv trivial hstep; exact ⟨dead, x', h⟩
